@@ -123,6 +123,21 @@ def _leaf_decode_all(text: str) -> Optional[list]:
     return out
 
 
+PRIOR = os.environ.get("VERIF_PRIOR", "")      # "h,w,body": a decode of another board size performed first (history)
+
+
+def _prior_call():
+    if not PRIOR:
+        return
+    ph, pw, body = PRIOR.split(",", 2)
+    try:
+        v = deserialize_problem(COMB, body, height=int(ph), width=int(pw))
+        if v is not None:
+            serialize_problem(COMB, v, height=int(ph), width=int(pw))
+    except ValueError:
+        pass
+
+
 def h_text(s: str) -> bool:
     """
     Text side (C15/C17): any text of length <= L.  Decoding must not fail with anything but ValueError; a returned value
@@ -131,6 +146,7 @@ def h_text(s: str) -> bool:
     post: _
     """
     env = _env()
+    _prior_call()
     if KIND == "leaf":
         try:
             r = COMB.deserialize(env, s, 0)
